@@ -658,7 +658,7 @@ func (g *c13ValGen) value(t *c13Ty, name string) *c13J {
 }
 
 var c13OutOfDomain = map[string]bool{"illtyped": true, "illegal-key": true, "struct-missing-key": true,
-	"struct-extra-key": true, "overlap": true, "relative-path": true}
+	"struct-extra-key": true, "overlap": true, "relative-path": true, "crash-after-rename": true}
 
 type c13Stats struct {
 	compileRejected int
@@ -720,6 +720,26 @@ func c13Direct(c *Ctx, r *Result, idx int, seed int64, nearMiss, overlap bool, c
 	mon := newC13Mon(ps)
 	for i, p := range params {
 		c13Leaves(p, outs.Vals[i], func(_ c13Member, v *c13J) { mon.record(v) })
+	}
+	// simulated crash point: post-processing was killed between os.Rename(file, outs/…) and
+	// os.Symlink(…, file) of ONE leaf (the file is under outs/, its source path is gone, `_outs`
+	// still holds the old record); what follows is the pass after the restart.
+	if idx%10 == 3 && !nearMiss && !overlap {
+		dests := c13LeafDests("", params, outs, ps)
+		var srcs []string
+		for src := range dests {
+			if mon.kind[src] == "reg" && mon.occ[src] == 1 && len(dests[src]) == 1 && strings.HasPrefix(src, g.files+"/") {
+				srcs = append(srcs, src)
+			}
+		}
+		sort.Strings(srcs)
+		if len(srcs) > 0 {
+			src := srcs[rng.Intn(len(srcs))]
+			os.MkdirAll(filepath.Dir(dests[src][0]), 0o775)
+			if os.Rename(src, dests[src][0]) == nil {
+				g.tag("crash-after-rename")
+			}
+		}
 	}
 	before := c13Snapshot([]string{root}, cs, nil)
 
@@ -828,6 +848,18 @@ func c13Direct(c *Ctx, r *Result, idx int, seed int64, nearMiss, overlap bool, c
 				mon.alias[i] = strings.ReplaceAll(mon.alias[i], root, "$ROOT")
 			}
 			r.violate(Violation{Kind: "property", Key: "C13:alias-record-points-at-first", What: strings.Join(mon.alias, "; "),
+				Input: cas, Impl: strings.ReplaceAll(realStr, root, "$ROOT")})
+		}
+	} else if g.tags["crash-after-rename"] && perr == nil {
+		for _, p := range params {
+			mon.walk(p.Id, p, outs.get(p.Id), post.get(p.Id), outsPath)
+		}
+		if len(mon.fails) > 0 {
+			for i := range mon.fails {
+				mon.fails[i] = strings.ReplaceAll(mon.fails[i], root, "$ROOT")
+			}
+			r.violate(Violation{Kind: "property", Key: "C13:crash-between-rename-and-symlink",
+				What:  "restart after a kill between the rename into outs/ and the symlink back: " + strings.Join(mon.fails, "; "),
 				Input: cas, Impl: strings.ReplaceAll(realStr, root, "$ROOT")})
 		}
 	} else if overlap && g.tags["overlap"] && perr == nil {
